@@ -642,7 +642,7 @@ class SqlalchemyRender:
 
             columns.append(
                 sa.Column(
-                    col.name,
+                    self.plain_name(col.name),
                     self.get_type(col_type),
                     **kwargs
                 )
@@ -728,6 +728,13 @@ class SqlalchemyRender:
 
         return stmt, params
 
+    @staticmethod
+    def plain_name(name):
+        # the names of UPDATE and CREATE TABLE columns are kept as they were written: `a b` denotes the name a b
+        if isinstance(name, str) and len(name) > 2 and name[0] == '`' and name[-1] == '`':
+            return name[1:-1]
+        return name
+
     def prepare_update(self, ast_query):
         if ast_query.from_select is not None:
             raise NotImplementedError('Render of update with sub-select is not implemented')
@@ -738,6 +745,7 @@ class SqlalchemyRender:
 
         to_update = {}
         for col, value in ast_query.update_columns.items():
+            col = self.plain_name(col)
             columns.append(
                 sa.Column(
                     col,
